@@ -1,5 +1,7 @@
 #pragma once
 
+#include <unordered_set>
+
 /* Liveness analysis */
 
 //#include <crab/cfg/basic_block_traits.hpp>
@@ -38,6 +40,9 @@ private:
   using liveness_map_t = std::unordered_map<basic_block_label_t, binding_t>;
   
   liveness_map_t m_liveness_map;
+  // blocks that contain an unreachable statement: nothing flows from
+  // their successors
+  std::unordered_set<basic_block_label_t> m_dead_end_blocks;
 public:
   liveness_analysis_operations(CFG cfg) : parent_type(cfg) {}
 
@@ -61,12 +66,16 @@ public:
   virtual void init_fixpoint() override {
     for (auto &b :
          boost::make_iterator_range(this->m_cfg.begin(), this->m_cfg.end())) {
-      bool is_unreachable_block = false;
       varset_domain_t kill, gen;
       for (auto &s : boost::make_iterator_range(b.rbegin(), b.rend())) {
 	if (s.is_unreachable()) {
-	  is_unreachable_block = true;
-	  break;
+	  // Nothing after this statement is executed (what we have
+	  // collected so far is irrelevant) but the statements before
+	  // it are: their uses are live.
+	  kill = varset_domain_t();
+	  gen = varset_domain_t();
+	  m_dead_end_blocks.insert(b.label());
+	  continue;
 	} 
         auto const &live = s.get_live();
         for (auto d :
@@ -79,22 +88,21 @@ public:
           gen += u;
         }
       } // end for
-      if (!is_unreachable_block) {
-	m_liveness_map.insert(std::make_pair(b.label(), binding_t(kill, gen)));
-      }
+      m_liveness_map.insert(std::make_pair(b.label(), binding_t(kill, gen)));
     } // end for
   }
 
   virtual varset_domain_t analyze(const basic_block_label_t &bb_id,
                                   varset_domain_t in) override {
     auto it = m_liveness_map.find(bb_id);
+    if (m_dead_end_blocks.find(bb_id) != m_dead_end_blocks.end()) {
+      // the end of bb_id is unreachable: nothing is live there
+      in = varset_domain_t::bottom();
+    }
     if (it != m_liveness_map.end()) {
       in -= it->second.first;
       in += it->second.second;
-    } else {
-      // bb_id is unreachable
-      in = varset_domain_t::bottom(); // empty set (i.e., no live variables)
-    } 
+    }
     return in;
   }
 
